@@ -192,12 +192,17 @@ func decideFlagFrom(tlvs []tlv) byte {
 func (c *Conversation) processSMPTLV(t tlv, x dataMessageExtra) (toSend *tlv, err error) {
 	c.smp.ensureSMP()
 
-	smpMessage, ok := t.smpMessage()
+	message, ok := t.smpMessage()
 	if !ok {
-		return nil, newOtrError("corrupt data message")
+		// an SMP message that cannot be parsed ends the run in progress like any other
+		// deviant message does: the state machine is reset and the peer is told
+		var abort smpMessage
+		c.smp.state, abort, _ = abortStateMachineAndNotifyError(c)
+		res := abort.tlv()
+		return &res, nil
 	}
 
-	return c.receiveSMP(smpMessage)
+	return c.receiveSMP(message)
 }
 
 func (c *Conversation) processTLVs(tlvs []tlv, x dataMessageExtra) ([]tlv, error) {
